@@ -244,3 +244,20 @@ Theorem list_users_complete_refuted :
     holds3 m conds store u atoms o r = T.
 Proof. exact ListUsersProofs.list_users_complete_refuted. Qed.
 Print Assumptions list_users_complete_refuted.
+
+(* ================================================================== *)
+(* H. answers of a traversal that was cut short                        *)
+(* ================================================================== *)
+(* list_users_may (every key any source can send, set operators ignored) bounds what can be
+   returned when the result limit is reached before a traversal error surfaces (finding
+   limit_drops_error); it contains every key of every complete answer. *)
+Theorem list_users_may_covers : forall m conds store ft fr limit pruned o r res u,
+  In res (lf_results (list_users m conds store ft fr limit pruned o r)) -> In u res ->
+  In u (list_users_may m conds store ft fr limit pruned o r).
+Proof. exact ListUsersProofs.list_users_may_covers. Qed.
+Print Assumptions list_users_may_covers.
+Example list_users_may_ex :
+  list_users_may m_nested [] s_nested tU 0 25%nat false doc1 4 = [W1; ua] /\
+  list_users_may m_omit [] s_omit tU 0 25%nat false doc1 5 = [W1; uc; ub] /\
+  lf_results (list_users m_omit [] s_omit tU 0 25%nat false doc1 5) = [[]].
+Proof. vm_compute. repeat split; reflexivity. Qed.
